@@ -214,6 +214,19 @@ def random_case(rng):
             written.append((a, rand_pieces(rng, names, rng.randint(0, 6))))
     return {'decls': decls, 'el': 'e', 'attrs': written}
 
+def corpus_cases():
+    """minimised reproductions of every defect found so far (corpus/C11_regressions.json); they run first"""
+    try:
+        raw = json.load(open(os.path.join(lib.VERIF, 'corpus', 'C11_regressions.json')))
+    except OSError:
+        return []
+    out = []
+    for c in raw:
+        decls = [('e', x[1], [tuple(p) for p in x[2]]) if x[0] == 'e' else
+                 ('l', x[1], [(a, t, k, [tuple(p) for p in ps]) for a, t, k, ps in x[2]]) for x in c['decls']]
+        out.append({'decls': decls, 'el': c['el'], 'attrs': [(a, [tuple(p) for p in ps]) for a, ps in c['attrs']]})
+    return out
+
 def esc_cases():
     """double escaping in entity literals (finding D56) and '<' through an entity (D06, property C02)"""
     out = []
@@ -286,7 +299,9 @@ def check(run):
     else:
         run.extra['exhaustive'] = 'literals of <= 3 pieces over %d pieces x 3 contexts; literals of <= 1 piece (+120 of 2) x %d types x 4 default kinds x written/omitted x 5 layouts' % (len(ALPHABET), len(TYPES))
     rnd = [random_case(run.rng) for _ in range(3000 if run.tier == 'quick' else 60000)]
-    cases = ex + rnd + esc_cases()
+    corpus = corpus_cases()
+    run.extra['corpus_cases'] = len(corpus)
+    cases = corpus + ex + rnd + esc_cases()
     r, m, s = run_three(cases, okr, okm, oks)
     findings = {e['id']: e for e in lib.known_findings('C11')}
     ties, fails = 0, []
